@@ -168,6 +168,7 @@ func (ex *Exec) verifyFunction(fn *ssa.Function, c *Contract) {
 	pre = st.clone()
 	ex.topPre = pre
 	ex.topVars = vars
+	ex.topArgs = args
 	nret := 0
 	ex.keepTopFrame = true
 	ex.runFunc(st, fn, args, func(post *State, res []Value) {
